@@ -75,6 +75,10 @@ def edges(sample_k, mx, timeout=600, **kw):
     return {"mode": "edges", "sample_k": sample_k, "max": mx, "timeout": timeout, "constants": c(**kw)}
 
 
+def hugeflush(count):
+    return {"mode": "hugeflush", "count": count}
+
+
 def deep(count):
     return {"mode": "deep", "count": count}
 
@@ -165,11 +169,11 @@ PROFILES = {
         c(Ops=CORE1, MaxSeq=5, BigVals={2, 3}),
         [sim(8, 24, MaxSeq=16, MaxTables=5, MaxHist=20, MaxSealed=2, BigVals={2, 3},
              Ops=CORE1 | {"droprange"}, WriteBias=3),
-         drv(32, 160, dict(DRIVE_W, droprange=0.6))],
+         drv(32, 160, dict(DRIVE_W, droprange=0.6)), hugeflush(1)],
         c(Ops=CORE1, MaxSeq=6, BigVals={2, 3}),
         [sim(1200, 30, Keys={1, 2, 3}, MaxSeq=24, MaxTables=6, MaxHist=30, MaxSealed=2,
              BigVals={2, 3}, Ops=CORE1 | {"droprange"}, WriteBias=4),
-         drv(400, 400, dict(DRIVE_W, droprange=0.6))],
+         drv(400, 400, dict(DRIVE_W, droprange=0.6)), hugeflush(6)],
         blobs=BLOBS, val_alphas=[1, 1, 2],
         regress=["findings/C09-blob-id-reuse.replay.json", "findings/C09-with-dropped-ondisk.replay.json"]),
     # C11 physical tuning and cache sharing
